@@ -30,6 +30,8 @@ FAIL = object()
 def show(t):
     if isinstance(t, str):
         return t
+    if t[0] == "ref":
+        return "$" + t[1]
     if t[0] in ("opt", "vec"):
         return ("o(" if t[0] == "opt" else "v(") + show(t[1]) + ")"
     return ("r(" if t[0] == "record" else "V(") + ";".join(f"{i}:{show(x)}" for i, x in t[1]) + ")"
@@ -136,12 +138,28 @@ def edit(rnd, t, bad):
 
 # ------------------------------------------------------------------ the spec's encoder (T, I, M)
 class Enc:
-    def __init__(self):
-        self.memo, self.entries = {}, []
+    def __init__(self, env=None):
+        self.memo, self.entries, self.env = {}, [], env or {}
 
     def ref(self, t):
         if isinstance(t, str):
             return OPC[t]
+        if t[0] == "ref":
+            key = "$" + t[1]
+            if key not in self.memo:
+                # a named (possibly recursive) definition: reserve its entry first, then fill it
+                d = self.env[t[1]]
+                i = len(self.entries)
+                self.memo[key] = i
+                self.entries.append(None)
+                if d[0] in ("opt", "vec"):
+                    b = sleb_ref(-18 if d[0] == "opt" else -19) + sleb_ref(self.ref(d[1]))
+                else:
+                    b = sleb_ref(-20 if d[0] == "record" else -21) + leb_ref(len(d[1]))
+                    for fid, x in d[1]:
+                        b += leb_ref(fid) + sleb_ref(self.ref(x))
+                self.entries[i] = b
+            return self.memo[key]
         key = show(t)
         if key in self.memo:
             return self.memo[key]
@@ -158,6 +176,8 @@ class Enc:
         return i
 
     def val(self, t, v):
+        if not isinstance(t, str) and t[0] == "ref":
+            return self.val(self.env[t[1]], v)
         if isinstance(t, str):
             if t in ("null", "reserved"):
                 return b""
@@ -189,10 +209,19 @@ class Enc:
 
 # ------------------------------------------------------------------ the spec's coercion relation  V : T ~> V' : T'
 def null_sub(t):
+    while not isinstance(t, str) and t[0] == "ref":
+        t = ENVS["e"][t[1]]
     return t in ("null", "reserved") or (not isinstance(t, str) and t[0] == "opt")
 
 
+ENVS = {"w": {}, "e": {}}      # definitions of the wire side and of the expected side (named, possibly recursive types)
+
+
 def coerce(v, t, e):
+    while not isinstance(t, str) and t[0] == "ref":
+        t = ENVS["w"][t[1]]
+    while not isinstance(e, str) and e[0] == "ref":
+        e = ENVS["e"][e[1]]
     if e == "reserved":
         return None
     if not isinstance(e, str) and e[0] == "opt":
@@ -257,8 +286,37 @@ def coerce_args(vals, tys, exps):
     return out
 
 
+
+def gen_rec_value(rnd, kind, depth=0):
+    if kind == "List":
+        return None if depth > 4 or rnd.random() < 0.3 else ("some", [(0, rnd.choice([0, 1, 300, 2 ** 64])), (1, gen_rec_value(rnd, "List", depth + 1))])
+    if depth > 3 or rnd.random() < 0.4:
+        return ("variant", 0, None)
+    return ("variant", 1, [(0, gen_rec_value(rnd, "Tree", depth + 1)), (1, gen_rec_value(rnd, "Tree", depth + 1))])
+
+
+WIRE_DEFS = {"List": ("opt", ("record", [(0, "nat"), (1, ("ref", "List"))])),
+             "Tree": ("variant", [(0, "null"), (1, ("record", [(0, ("ref", "Tree")), (1, ("ref", "Tree"))]))])}
+EXP_DEFS = [
+    {"EList": ("opt", ("record", [(0, "int"), (1, ("ref", "EList"))]))},                                   # nat -> int all the way down
+    {"EList": ("opt", ("record", [(0, "nat"), (1, ("ref", "EList")), (2, ("opt", "text"))]))},          # a new optional field
+    {"EList": ("opt", ("record", [(0, "text"), (1, ("ref", "EList"))]))},                                  # head does not coerce: null at the first cell
+    {"EList": ("opt", ("record", [(1, ("ref", "EList"))]))},                                                # head dropped
+    {"EList": ("record", [(0, "nat"), (1, ("opt", ("ref", "EList")))])},                                    # not an option at the top: null list fails
+    {"ETree": ("variant", [(0, "null"), (1, ("record", [(0, ("ref", "ETree")), (1, ("ref", "ETree"))])), (2, "nat")])},   # a new tag
+    {"ETree": ("variant", [(1, ("record", [(0, ("ref", "ETree")), (1, ("ref", "ETree"))]))])},              # leaf tag removed: every finite tree fails
+    {"ETree": ("variant", [(0, "null"), (1, ("record", [(0, ("ref", "ETree")), (1, ("opt", ("ref", "ETree")))]))])},  # right subtree optional
+]
+
+
+def show_defs(env):
+    return ",".join(f"{n}={show(t)}" for n, t in env.items())
+
+
 def signed_view(v, t):
     """the independent decoder of bounded_standin returns fixed-width integers unsigned: read int<N> as two's complement"""
+    while not isinstance(t, str) and t[0] == "ref":
+        t = ENVS["e"][t[1]]
     if isinstance(t, str):
         if t in FIXED and FIXED[t][1] and v is not None and v >= 1 << (8 * FIXED[t][0] - 1):
             return v - (1 << (8 * FIXED[t][0]))
@@ -296,14 +354,28 @@ def run(pid, build_replay):
             else:
                 exps.append(rnd.choice([("opt", "nat"), "null", "reserved"]) if not bad or rnd.random() < 0.5 else "nat")
         msg = Enc().message(tys, vals)
+        ENVS["w"], ENVS["e"] = {}, {}
         want = coerce_args(vals, tys, exps)
-        cases.append((f"co {msg.hex()} {','.join(show(e) for e in exps) or '-'}", tys, vals, exps, want))
+        cases.append((f"co {msg.hex()} {','.join(show(e) for e in exps) or '-'}", tys, vals, exps, want, {}, {}))
+    # (mutually) recursive types: lists and trees decoded at edited recursive expected types
+    for _ in range(600 * (10 if scale > 1 else 1)):
+        eenv = rnd.choice(EXP_DEFS)
+        ename = next(iter(eenv))
+        kind = "List" if ename == "EList" else "Tree"
+        tys, vals, exps = [("ref", kind)], [gen_rec_value(rnd, kind)], [("ref", ename)]
+        if rnd.random() < 0.3:
+            exps = [("opt", ("ref", ename))]
+        msg = Enc(WIRE_DEFS).message(tys, vals)
+        ENVS["w"], ENVS["e"] = WIRE_DEFS, eenv
+        want = coerce_args(vals, tys, exps)
+        cases.append((f"co {msg.hex()} {','.join(show(e) for e in exps)} {show_defs(eenv)}", tys, vals, exps, want, WIRE_DEFS, eenv))
     p = subprocess.run([exe], input="\n".join(c[0] for c in cases) + "\n", capture_output=True, text=True, timeout=1800)
     outs = [l.strip() for l in p.stdout.splitlines()]
     if len(outs) != len(cases):
         return {"undecided": [f"bounded stand-in: replay produced {len(outs)} lines for {len(cases)} messages"], "failures": []}
     failures, nfail = [], 0
-    for (cmd, tys, vals, exps, want), o in zip(cases, outs):
+    for (cmd, tys, vals, exps, want, wenv, eenv), o in zip(cases, outs):
+        ENVS["w"], ENVS["e"] = wenv, eenv
         nfail += want is FAIL
         why = None
         desc = f"values {vals} of types ({', '.join(show(t) for t in tys)}) at expected types ({', '.join(show(e) for e in exps)})"
@@ -314,8 +386,8 @@ def run(pid, build_replay):
             why = (f"the coerced values {want}", o[:160])
         else:
             try:
-                dt, dv = spec_decode(bytes.fromhex(o[3:]))
-                dv = [signed_view(v, t) for v, t in zip(dv, dt)]
+                _, dv = spec_decode(bytes.fromhex(o[3:]), want_types=False)
+                dv = [signed_view(v, t) for v, t in zip(dv, exps)]
                 if dv != want:
                     why = (f"the coerced values {want}", f"{dv}")
             except (SpecDecodeError, Exception) as e:   # noqa: B014
@@ -335,7 +407,7 @@ def run(pid, build_replay):
             "samples": [],
             "bounded_standins": [{"functions": ["de.rs as a whole (untyped decoding at expected types): deserialize_with_type, argument sequencing, done(), "
                                                 "record / variant / option / vector coercion, IDLValue visitor; value.rs annotate_type + encoder for the way back"],
-                                  "bound": f"{len(cases)} seeded messages of 0..3 non-recursive arguments (types of depth <= 3 over nat, int, fixed-width ints, bool, text, null, "
+                                  "bound": f"{len(cases)} seeded messages: 600 lists / trees of recursive types at 8 edited recursive expected types, the rest of 0..3 non-recursive arguments (types of depth <= 3 over nat, int, fixed-width ints, bool, text, null, "
                                            f"reserved, opt, vec, record, variant), expected types = the argument types after 0..3 random edits; "
                                            f"{nfail} of them have no coercion (an error is demanded)",
                                   "vectors": len(cases), "disagreements": len(failures), "labelled": "bounded, NOT proved",
